@@ -150,3 +150,13 @@ package jschema
 //@   ensures forall i :: 0 <= i && i < old(len(c.userTypes)) ==> c.userTypes[i] == old(c.userTypes[i])
 //@   no_panic
 //@   at return set c.$pos = old(n in c.alreadyProcessed) ? c.$pos : store(c.$pos, n, old(len(c.userTypes)))
+
+// the name read from a `type` rule is handed to the collector only when it is a user type name (starts with '@');
+// the same statement for the `or` list reader (UserTypeNamesFromTypesListConstraint) did not discharge (append into a
+// fresh slice under five inlined Node implementations) and is not claimed
+
+//@ func UserTypeNamesFromTypeConstraint
+//@   property C05 C09
+//@   may_panic
+//@   at call:Unquote assume len(arg0.data) <= 1099511627776
+//@   ensures forall i :: 0 <= i && i < len(result) ==> len(result[i]) > 0 && result[i][0] == 64
